@@ -18,7 +18,7 @@ ASSUMPTIONS = ["bound configurations are generated around an existing target par
                "terminate, are outside the statement)",
                "with allow_unmet_constraints_first the bounds are judged only from the first value that is inside them"]
 REQUIRED = ["mseg.initial", "mseg.copy_with_update", "mseg.kind.merge", "mseg.kind.split", "mseg.kind.move", "mseg.history_reverified",
-            "c18.walks", "c18.single_row_or_column", "c18.tight_bounds", "c18.initial_blocks", "c18.unmet_first"]
+            "c18.walks", "c18.single_row_or_column", "c18.tight_bounds", "c18.initial_blocks", "c18.unmet_first", "c18.initial_blocks_not_meeting_bounds", "c18.exact_block_size"]
 
 
 def plan(tier):
@@ -60,12 +60,41 @@ def gen_config(rng):
             for r in extra["initial_blocks"]:
                 rng.shuffle(r)
             rng.shuffle(extra["initial_blocks"])
+    elif rng.random() < 0.25:
+        # a layout that does NOT meet the bounds (all singletons / another random partition / one block): initial() has to walk
+        # from it until every bound holds (the bounds themselves are feasible: the target partition meets them)
+        m = rng.randrange(3)
+        if m == 0:
+            other = [[(y, x)] for y in range(h) for x in range(w)]
+        elif m == 1:
+            ids2 = K.random_partition_ids(h, w, rng)
+            rr = {}
+            for y in range(h):
+                for x in range(w):
+                    rr.setdefault(ids2[y][x], []).append((y, x))
+            other = list(rr.values())
+        else:
+            other = [[(y, x) for y in range(h) for x in range(w)]]
+        extra["initial_blocks"] = other
+        extra["_unmet_start"] = True
     if rng.random() < 0.2:
         extra["allow_unmet_constraints_first"] = True
+    if rng.random() < 0.15 and h * w >= 4:
+        # exact block size: the walk of initial() dead-ends often (it must then raise, never hand out an invalid value)
+        size = rng.choice([s for s in (2, 3, 4) if (h * w) % s == 0] or [1])
+        cfg.update(min_block_size=size, max_block_size=size, min_num_blocks=None, max_num_blocks=None)
+        extra.pop("initial_blocks", None)
+        extra.pop("_unmet_start", None)
+        tight = True
     return cfg, extra, tight
 
 
 def walk(ctx, st, rng, cfg, extra, steps):
+    unmet_start = extra.pop("_unmet_start", False)
+    if unmet_start:
+        ctx.count("c18.initial_blocks_not_meeting_bounds")
+    if cfg["min_block_size"] is not None and cfg["min_block_size"] == cfg["max_block_size"]:
+        ctx.count("c18.exact_block_size")
     b = SegmentationBuilder2D(cfg["height"], cfg["width"], cfg["min_num_blocks"], cfg["max_num_blocks"], cfg["min_block_size"],
                               cfg["max_block_size"], **extra)
     ctx.current_case = {"config": cfg, "extra": {k: (v if k != "initial_blocks" else "target partition") for k, v in extra.items()}}
